@@ -3,6 +3,7 @@ import RtenVerif.Lemmas.Slice
 import RtenVerif.Lemmas.Perm
 import RtenVerif.Lemmas.Gather
 import RtenVerif.Lemmas.SliceT1
+import RtenVerif.Lemmas.AxisSel
 
 /-!
 # C09 — Layout transformations match a reference array model
@@ -426,6 +427,157 @@ example : (trySlice ⟨0, 12, [(4, 1), (3, 4)]⟩ [.range ⟨-3, none, 2⟩, .in
       (fun v' => denote v' (fun i => i)) = .ok (⟨[2], [9, 11]⟩ : NArr Nat) ∧
     NArr.slice [.range (-3) none 2, .index (-1)] (⟨[4, 3], [0, 4, 8, 1, 5, 9, 2, 6, 10, 3, 7, 11]⟩ : NArr Nat) =
       .ok ⟨[2], [9, 11]⟩ := ⟨by rfl, by rfl⟩
+
+/-- **C09.T1 slice_axis**: the reference range on one axis, or both panic (no such axis,
+`end < start`, `end > size`); storage-window invariant preserved, no storage-range panic. -/
+theorem c09_slice_axis (v : View) (axis start stop : Nat) (s : Nat → α) (hwf : WF v) :
+    (sliceAxis v axis start stop).map (fun v' => denote v' s) =
+      (denote v s).sliceAxis axis start stop ∧
+    ∀ v', sliceAxis v axis start stop = .ok v' → WF v' := by
+  unfold sliceAxis NArr.sliceAxis
+  have hr : (denote v s).rank = v.dims.length := by simp [NArr.rank, denote]
+  have hsh : (denote v s).shape = sizes v.dims := rfl
+  rw [hr, hsh, sizes_getD]
+  by_cases hk : axis < v.dims.length
+  · have c1 : ¬ (axis ≥ v.dims.length) := by omega
+    rw [if_neg c1]
+    by_cases hb : start ≤ stop ∧ stop ≤ (v.dims.getD axis (0, 0)).1
+    · have c2 : ¬ (stop < start ∨ stop > (v.dims.getD axis (0, 0)).1) := by omega
+      have c3 : axis < v.dims.length ∧ start ≤ stop ∧ stop ≤ (v.dims.getD axis (0, 0)).1 := ⟨hk, hb⟩
+      rw [if_neg c2, if_pos c3]
+      obtain ⟨v', hw, hden, hwf', _⟩ := axis_select v axis start (stop - start) s hk (by omega) hwf
+      by_cases he : numelD (resizeDim v.dims axis (stop - start)) = 0
+      · rw [if_pos he] at hw ⊢
+        rw [minDataLen_empty _ he] at hw
+        rw [hw]
+        exact ⟨by simp only [Except.map, hden], fun v'' h => by injection h with h; exact h ▸ hwf'⟩
+      · rw [if_neg he] at hw ⊢
+        rw [resizeDim_stride, Nat.mul_comm start]
+        rw [hw]
+        exact ⟨by simp only [Except.map, hden], fun v'' h => by injection h with h; exact h ▸ hwf'⟩
+    · have c2 : (stop < start ∨ stop > (v.dims.getD axis (0, 0)).1) := by omega
+      have c3 : ¬ (axis < v.dims.length ∧ start ≤ stop ∧ stop ≤ (v.dims.getD axis (0, 0)).1) :=
+        fun h => hb h.2
+      rw [if_pos c2, if_neg c3]
+      exact ⟨rfl, fun v' h => by cases h⟩
+  · have c1 : axis ≥ v.dims.length := by omega
+    have c3 : ¬ (axis < v.dims.length ∧ start ≤ stop ∧ stop ≤ (v.dims.getD axis (0, 0)).1) :=
+      fun h => hk h.1
+    rw [if_pos c1, if_neg c3]
+    exact ⟨rfl, fun v' h => by cases h⟩
+
+/-- **C09.T1 split_at** (left or right part): `numpy.split(a, [mid], axis)`, or both panic (no
+such axis, `mid > size`); no storage-range panic on a view that covers its layout, and both parts
+cover theirs. -/
+theorem c09_split_at (v : View) (axis mid : Nat) (right : Bool) (s : Nat → α) (hwf : WF v) :
+    (splitAt v axis mid right).map (fun v' => denote v' s) =
+      (denote v s).splitAt axis mid right ∧
+    ∀ v', splitAt v axis mid right = .ok v' → WF v' := by
+  unfold splitAt NArr.splitAt NArr.sliceAxis
+  have hr : (denote v s).rank = v.dims.length := by simp [NArr.rank, denote]
+  have hsh : (denote v s).shape = sizes v.dims := rfl
+  rw [hr, hsh, sizes_getD]
+  by_cases hc : axis < v.dims.length ∧ mid ≤ (v.dims.getD axis (0, 0)).1
+  · rw [if_pos hc, if_pos hc]
+    obtain ⟨hk, hm⟩ := hc
+    have hwf0 := hwf
+    unfold WF at hwf0
+    -- left part
+    obtain ⟨vl, hwl, hdl, _, hbl⟩ := axis_select v axis 0 mid s hk (by omega) hwf
+    have hvl := window_ok_eq _ _ _ _ _ hwl
+    -- right part
+    obtain ⟨vr, hwr, hdr, _, hbr⟩ :=
+      axis_select v axis mid ((v.dims.getD axis (0, 0)).1 - mid) s hk (by omega) hwf
+    have hvr := window_ok_eq _ _ _ _ _ hwr
+    have hl_le : minDataLen (resizeDim v.dims axis mid) ≤ v.len := by
+      by_cases he : numelD (resizeDim v.dims axis mid) = 0
+      · rw [minDataLen_empty _ he]; omega
+      · have := hbl he; omega
+    simp only []
+    rw [if_neg (by omega)]
+    by_cases her : numelD (resizeDim v.dims axis ((v.dims.getD axis (0, 0)).1 - mid)) = 0
+    · rw [if_pos her]
+      simp only []
+      rw [if_neg (by omega)]
+      cases right with
+      | true =>
+        simp only [if_true, Except.map]
+        have c3 : axis < v.dims.length ∧ mid ≤ (v.dims.getD axis (0, 0)).1 ∧
+            (v.dims.getD axis (0, 0)).1 ≤ (v.dims.getD axis (0, 0)).1 := ⟨hk, hm, Nat.le_refl _⟩
+        rw [if_pos c3]
+        refine ⟨?_, ?_⟩
+        · congr 1
+          rw [← hdr, hvr]
+          exact denote_empty _ _ s rfl her
+        · intro v' h
+          injection h with h
+          subst h
+          unfold WF
+          simp only []
+          rw [minDataLen_empty _ her]; omega
+      | false =>
+        simp only [Bool.false_eq_true, if_false, Except.map]
+        have c3 : axis < v.dims.length ∧ 0 ≤ mid ∧ mid ≤ (v.dims.getD axis (0, 0)).1 :=
+          ⟨hk, Nat.zero_le _, hm⟩
+        rw [if_pos c3]
+        refine ⟨?_, ?_⟩
+        · congr 1
+          simp only [Nat.sub_zero]
+          rw [← hdl, hvl]
+          apply denote_base_dims
+          · simp only []; split <;> omega
+          · rfl
+        · intro v' h
+          injection h with h
+          subst h
+          unfold WF
+          simp only []
+          omega
+    · rw [if_neg her]
+      have hb := hbr her
+      simp only []
+      rw [if_neg (by
+        rw [Nat.mul_comm mid]
+        omega)]
+      cases right with
+      | true =>
+        simp only [if_true, Except.map]
+        have c3 : axis < v.dims.length ∧ mid ≤ (v.dims.getD axis (0, 0)).1 ∧
+            (v.dims.getD axis (0, 0)).1 ≤ (v.dims.getD axis (0, 0)).1 := ⟨hk, hm, Nat.le_refl _⟩
+        rw [if_pos c3]
+        refine ⟨?_, ?_⟩
+        · congr 1
+          rw [← hdr, hvr]
+          apply denote_base_dims
+          · simp only []; rw [if_neg her, Nat.mul_comm mid]
+          · rfl
+        · intro v' h
+          injection h with h
+          subst h
+          unfold WF
+          simp only []
+          rw [Nat.mul_comm mid]
+          omega
+      | false =>
+        simp only [Bool.false_eq_true, if_false, Except.map]
+        have c3 : axis < v.dims.length ∧ 0 ≤ mid ∧ mid ≤ (v.dims.getD axis (0, 0)).1 :=
+          ⟨hk, Nat.zero_le _, hm⟩
+        rw [if_pos c3]
+        refine ⟨?_, ?_⟩
+        · congr 1
+          simp only [Nat.sub_zero]
+          rw [← hdl, hvl]
+          apply denote_base_dims
+          · simp only []; split <;> omega
+          · rfl
+        · intro v' h
+          injection h with h
+          subst h
+          unfold WF
+          simp only []
+          omega
+  · rw [if_neg hc, if_neg hc]
+    exact ⟨rfl, fun v' h => by cases h⟩
 
 /-! ## T2: chains of operations compose -/
 
